@@ -109,6 +109,9 @@ func (g *Generate) Parse() error {
 				// the code below attempts to evaluate the actual value
 				// in the AST.as a _typed_ variable.
 				xprStr := types.ExprString(v.astLine.Values[j])
+				// the expression is copied into the generated file as written, so the
+				// generated file needs the imports behind the package names it mentions.
+				useImportNames(g.Imports, pkg.TypesInfo, v.astLine.Values[j])
 				tDesc := traits[j-1]
 				tv := pkg.TypesInfo.Types[v.astLine.Values[j]]
 				tDesc.Traits = append(tDesc.Traits, TraitInstance{
@@ -170,6 +173,19 @@ func validateParsableTraits(enumType string, traits TraitDescs) error {
 		}
 	}
 	return nil
+}
+
+// useImportNames marks every import the expression refers to by name (e.g. the `stdtime` of
+// `5 * stdtime.Second`) as in use.
+func useImportNames(imports *gencommon.ImportHandler, info *types.Info, expr ast.Expr) {
+	ast.Inspect(expr, func(n ast.Node) bool {
+		if id, ok := n.(*ast.Ident); ok {
+			if _, isPkg := info.Uses[id].(*types.PkgName); isPkg {
+				imports.UseName(id.Name)
+			}
+		}
+		return true
+	})
 }
 
 // validateCaseInsensitiveNames returns an error if two names of an enum differ only by case.
